@@ -9,8 +9,8 @@ use crate::{all_bits, Mons};
 
 // ------------------------------------------------------------------ C08
 
-struct OpenTrx {
-    trx: Trx<aranya_runtime::linear::testing::Manager>,
+struct OpenTrx<M: aranya_runtime::linear::IoManager> {
+    trx: Trx<M>,
     plan: Vec<usize>,
     pos: usize,
     /// commit stamp observed at the first add_commands, None = never used
@@ -20,6 +20,17 @@ struct OpenTrx {
 }
 
 pub fn iso_case(cs: u64, _args: &Args, mons: &mut Mons, case: &Value) {
+    if cs % 4 == 0 {
+        // File-backed storage, reopened after the bootstrap commit: the race then starts on a
+        // storage instance that has not committed anything itself yet (as after a restart).
+        let d = Scratch::new("rt-iso");
+        iso_case_on(cs, mons, case, &|init: &Id| FileReplica::new_file(d.path(), init), true);
+    } else {
+        iso_case_on(cs, mons, case, &|init: &Id| MemReplica::new_mem(init), false);
+    }
+}
+
+fn iso_case_on<M: aranya_runtime::linear::IoManager>(cs: u64, mons: &mut Mons, case: &Value, mk: &dyn Fn(&Id) -> Replica<M>, reopen: bool) {
     let mut rng = Rng::new(cs);
     let mut cfg = GenCfg::small(&mut rng);
     cfg.n = rng.urange(8, 50);
@@ -27,7 +38,7 @@ pub fn iso_case(cs: u64, _args: &Args, mons: &mut Mons, case: &Value) {
     let mut model = DagGen::new(cfg, &mut rng).build();
     let n0 = model.len();
     let init = model.node(0).id;
-    let mut rep = MemReplica::new_mem(&init);
+    let mut rep = mk(&init);
     let mut obs = Obs::default();
     // bootstrap: init committed
     {
@@ -35,18 +46,23 @@ pub fn iso_case(cs: u64, _args: &Args, mons: &mut Mons, case: &Value) {
         rep.add(&mut t, &[wire(&model.dag, 0)]).expect("init");
         rep.commit(t).expect("commit init");
     }
+    if reopen {
+        drop(rep);
+        rep = mk(&init);
+        obs.count("iso_cases_on_reopened_file_storage", 1);
+    }
     let mut committed = Bits::new(n0);
     committed.set(0);
     let mut stamp = 0u64; // bumps on every successful commit / action
     let k = rng.urange(2, 4);
-    let new_trx = |rep: &mut MemReplica, model: &Model, rng: &mut Rng| OpenTrx {
+    let new_trx = |rep: &mut Replica<M>, model: &Model, rng: &mut Rng| OpenTrx {
         trx: rep.trx(),
         plan: linear_extension(model, &|v| v < n0, *rng.pick(&[Order::RandomTopo, Order::DepthFirst, Order::Creation]), rng),
         pos: 0,
         stamp: None,
         accepted: Bits::new(n0),
     };
-    let mut trxs: Vec<OpenTrx> = (0..k).map(|_| new_trx(&mut rep, &model, &mut rng)).collect();
+    let mut trxs: Vec<OpenTrx<M>> = (0..k).map(|_| new_trx(&mut rep, &model, &mut rng)).collect();
     let mut script = vec![];
     let mut overlapped_commit = false;
     let steps = rng.urange(10, 40);
